@@ -69,7 +69,7 @@ inductive AVec
 /-- `v` represents the abstract vector `a` -/
 def VInv (ps : List Param) (v : Vec) : AVec → Prop
   | .live es => v.ps = ps ∧ Inv1 v es
-  | .moved => v.ps = ps ∧ v.mem = [] ∧ v.size = 0 ∧ v.poison = false
+  | .moved => v.ps = ps ∧ v.mem = [] ∧ v.size = 0 ∧ v.poison = false ∧ (v.fixedLoc = true → storageAl v.ps ∣ v.loc.stride)
 
 theorem VInv.ps_eq {ps : List Param} {v : Vec} {a : AVec} (h : VInv ps v a) : v.ps = ps := by
   cases a <;> exact h.1
@@ -77,7 +77,7 @@ theorem VInv.ps_eq {ps : List Param} {v : Vec} {a : AVec} (h : VInv ps v a) : v.
 theorem VInv.clean {ps : List Param} {v : Vec} {a : AVec} (h : VInv ps v a) : v.poison = false := by
   cases a with
   | live es => exact h.2.clean
-  | moved => exact h.2.2.2
+  | moved => exact h.2.2.2.1
 
 /-- the world represents the abstract map `A` -/
 def WInv (ps : List Param) (w : World) (A : Nat → Option AVec) : Prop :=
@@ -179,8 +179,17 @@ theorem copy_refines (ps : List Param) (w : World) (A : Nat → Option AVec) (h 
           ⟨hva.1, hva.2.relocated w.junk rfl rfl rfl hva.2.clean⟩).of_vecs rfl
 
 theorem movedFrom_inv (ps : List Param) (v : Vec) (a : AVec) (h : VInv ps v a) : VInv ps v.movedFrom .moved := by
-  refine ⟨h.ps_eq, rfl, ?_, h.clean⟩
-  unfold Vec.size; split <;> rfl
+  refine ⟨h.ps_eq, rfl, ?_, h.clean, ?_⟩
+  · unfold Vec.size; split <;> rfl
+  · intro hf
+    have hf' : v.fixedLoc = true := hf
+    show storageAl v.ps ∣ v.loc.stride
+    cases a with
+    | live es =>
+      rcases h.2 with h1 | h1
+      · rw [h1.notFixed] at hf'; exact absurd hf' (by simp)
+      · exact h1.stride_dvd
+    | moved => exact h.2.2.2.2 hf'
 
 theorem move_refines (ps : List Param) (w : World) (A : Nat → Option AVec) (h : WInv ps w A) (s d : Nat) (a : AVec)
     (hA : A s = some a) (hsd : s ≠ d) :
@@ -229,7 +238,7 @@ theorem swap_refines (ps : List Param) (w : World) (A : Nat → Option AVec) (h 
         intro v p z hz
         cases z with
         | live es => exact ⟨hz.1, hz.2.congr rfl rfl rfl rfl⟩
-        | moved => exact ⟨hz.1, hz.2.1, (show (v.setPtr p).size = v.size from rfl) ▸ hz.2.2.1, hz.2.2.2⟩
+        | moved => exact ⟨hz.1, hz.2.1, (show (v.setPtr p).size = v.size from rfl) ▸ hz.2.2.1, hz.2.2.2.1, hz.2.2.2.2⟩
       exact ((h.set a (vb.setPtr (Ptr.swap w.acfg va.ptr vb.ptr).1) y (hsp vb _ y hvy)).set b
         (va.setPtr (Ptr.swap w.acfg va.ptr vb.ptr).2) x (hsp va _ x hvx)).of_vecs rfl
 
@@ -557,10 +566,200 @@ theorem WInv.observe {ps : List Param} {w : World} {A : Nat → Option AVec} (h 
     exact ⟨hva.2.abs, hva.2.size, hva.2.clean⟩
   · intro hm
     rw [hm] at ha; cases ha
-    exact ⟨hva.2.2.1, by simp [Vec.abs, hva.2.2.1], hva.2.2.2⟩
+    exact ⟨hva.2.2.1, by simp [Vec.abs, hva.2.2.1], hva.2.2.2.1⟩
 
 /-- the empty world represents the empty map -/
 theorem WInv.init (ps : List Param) (w : World) (h : ∀ k, w.vecs k = none) : WInv ps w (fun _ => none) := by
   intro k; rw [h k]; trivial
+
+/-! ### allocation failures inside a history -/
+
+/-- `clear()` turns every representable vector - live or moved-from - into the empty sequence -/
+theorem clear_inv (ps : List Param) (hl : ListOK ps) (v : Vec) (a : AVec) (h : VInv ps v a) : VInv ps v.clear (.live []) := by
+  refine ⟨h.ps_eq, ?_⟩
+  cases a with
+  | live es =>
+    rcases h.2 with h1 | h1
+    · have := h1.step_noreloc (fun _ => 0) .clear trivial trivial
+      exact Or.inl this
+    · have := h1.step_noreloc (fun _ => 0) .clear ⟨trivial, trivial⟩ trivial
+      exact Or.inr this
+  | moved =>
+    obtain ⟨hps, hmem, hsz, hpo, hst⟩ := h
+    have hdr : v.destructRange 0 v.size = [] := by
+      simp only [Vec.destructRange, hsz, Nat.sub_self, List.range_zero, List.map_nil, List.foldl_nil, hmem]
+    cases hf : v.fixedLoc with
+    | false =>
+      left
+      have hf' : v.clear.fixedLoc = false := hf
+      refine ⟨hps ▸ hl, hf', fun _ hx => absurd hx (by simp), ?_, fun k hk => absurd hk (by simp), ?_, Or.inl ?_, hpo⟩
+      · simp only [Vec.clear, Loc.resize, hf, Bool.false_eq_true, if_false, List.length_nil]
+      · intro x; simp only [Vec.clear, hdr]; simp
+      · simp only [Vec.clear, Loc.resize, hf, Bool.false_eq_true, if_false, if_true, rawEndOf]
+    | true =>
+      right
+      have hf' : v.clear.fixedLoc = true := hf
+      refine ⟨hps ▸ hl, hf', fun _ hx => absurd hx (by simp), ?_, ?_, fun _ hx => absurd hx (by simp), ?_, hpo⟩
+      · simp only [Vec.clear, Loc.resize, hf, if_true, List.length_nil]
+      · simp only [Vec.clear, Loc.resize, hf, if_true]; exact hst hf
+      · intro x; simp only [Vec.clear, hdr]; simp
+
+/-- the abstract map after an operation that ended in `bad_alloc`: unchanged, except that a failed copy assignment has
+    emptied its target (basic guarantee) -/
+def WOp.aspecFail (A : Nat → Option AVec) : WOp → (Nat → Option AVec)
+  | .copyAssign s d => if s = d then A else aset A d (some (.live []))
+  | _ => A
+
+theorem step_refines_fail (ps : List Param) (hl : ListOK ps) (w : World) (A : Nat → Option AVec) (h : WInv ps w A) (op : WOp)
+    (hpre : op.Pre ps w A) (hprev : w.threw = false) (hthrow : (op.apply ps w).threw = true) :
+    WInv ps (op.apply ps w) (op.aspecFail A) := by
+  cases op with
+  | new k fs cap bytes alloc =>
+    simp only [WOp.apply, WOp.aspecFail] at hthrow ⊢
+    unfold World.new at hthrow ⊢
+    simp only at hthrow ⊢
+    cases hp : allocPair w.heap w.acfg (Vec.new ps fs cap bytes w.junk).fixedLoc (Vec.new ps fs cap bytes w.junk).units
+        (Vec.new ps fs cap bytes w.junk).S alloc cap with
+    | mk h1 r =>
+      rw [hp] at hthrow
+      cases r with
+      | none => exact h.of_vecs rfl
+      | some pt => obtain ⟨p, t⟩ := pt; simp at hthrow
+  | vop k op =>
+    simp only [WOp.apply, World.upd] at hthrow
+    split at hthrow
+    · rw [hprev] at hthrow; exact absurd hthrow (by simp)
+    · simp at hthrow
+  | copy s d =>
+    simp only [WOp.apply, WOp.aspecFail] at hthrow ⊢
+    unfold World.copy at hthrow ⊢
+    cases hv : w.vecs s with
+    | none => simp only [hv] at hthrow; rw [hprev] at hthrow; exact absurd hthrow (by simp)
+    | some vs =>
+      simp only [hv] at hthrow ⊢
+      cases hp : allocPair w.heap w.acfg vs.fixedLoc vs.units vs.S (socc vs.alloc) vs.cap with
+      | mk h1 r =>
+        rw [hp] at hthrow
+        cases r with
+        | none => exact h.of_vecs rfl
+        | some pt => obtain ⟨p, t⟩ := pt; simp at hthrow
+  | move s d =>
+    simp only [WOp.apply, World.move] at hthrow
+    split at hthrow
+    · rw [hprev] at hthrow; exact absurd hthrow (by simp)
+    · simp at hthrow
+  | copyAssign s d =>
+    simp only [WOp.apply, WOp.aspecFail] at hthrow ⊢
+    by_cases hsd : s = d
+    · simp only [hsd, World.copyAssign, if_true] at hthrow; exact absurd hthrow (by simp)
+    · simp only [hsd, if_false]
+      rcases hpre with hp | ⟨⟨es, hAs⟩, hAd⟩
+      · exact absurd hp hsd
+      · unfold World.copyAssign at hthrow ⊢
+        simp only [hsd, if_false] at hthrow ⊢
+        cases hvs : w.vecs s with
+        | none => have := h s; rw [hvs, hAs] at this; exact absurd this (by simp)
+        | some vs =>
+          cases hvd : w.vecs d with
+          | none =>
+            have := h d; rw [hvd] at this
+            cases hy : A d with
+            | none => exact absurd hy hAd
+            | some y => rw [hy] at this; exact absurd this (by simp)
+          | some vd =>
+            obtain ⟨y, hy, hvy⟩ := h.get d vd hvd
+            have hclr := clear_inv ps hl vd y hvy
+            simp only [hvs, hvd] at hthrow ⊢
+            have hsp : ∀ (p : Ptr), VInv ps (vd.clear.setPtr p) (.live []) :=
+              fun p => ⟨hclr.1, hclr.2.congr rfl rfl rfl rfl⟩
+            cases hc : vd.clear.ptr.copyAssign w.heap w.acfg vd.S vs.ptr with
+            | mk h1 r =>
+              obtain ⟨p1, okc⟩ := r
+              rw [hc] at hthrow
+              cases okc with
+              | false => simp only; exact (h.set d _ (.live []) (hsp p1)).of_vecs rfl
+              | true =>
+                simp only at hthrow ⊢
+                cases ht : allocTable h1 vd.fixedLoc p1.alloc vs.cap with
+                | mk h2 t =>
+                  rw [ht] at hthrow
+                  cases t with
+                  | none => simp only; exact (h.set d _ (.live []) (hsp p1)).of_vecs rfl
+                  | some t => simp at hthrow
+  | moveAssign s d =>
+    simp only [WOp.apply, WOp.aspecFail] at hthrow ⊢
+    unfold World.moveAssign at hthrow ⊢
+    by_cases hsd : s = d
+    · simp only [hsd, if_true] at hthrow; exact absurd hthrow (by simp)
+    · simp only [hsd, if_false] at hthrow ⊢
+      cases hvs : w.vecs s with
+      | none => simp only [hvs] at hthrow; rw [hprev] at hthrow; exact absurd hthrow (by simp)
+      | some vs =>
+        cases hvd : w.vecs d with
+        | none => simp only [hvs, hvd] at hthrow; rw [hprev] at hthrow; exact absurd hthrow (by simp)
+        | some vd =>
+          simp only [hvs, hvd] at hthrow ⊢
+          by_cases hsteal : (w.acfg.ae || w.acfg.pocma || w.acfg.eq vd.alloc vs.alloc) = true
+          · simp only [hsteal, if_true] at hthrow; exact absurd hthrow (by simp)
+          · simp only [hsteal, if_false] at hthrow ⊢
+            by_cases hb : vs.bytes > vd.bytes
+            · simp only [hb, if_true] at hthrow ⊢
+              cases hp : allocPair w.heap w.acfg vd.fixedLoc vs.bytes vd.S vd.alloc vs.cap with
+              | mk h1 r =>
+                rw [hp] at hthrow
+                cases r with
+                | none => exact h.of_vecs rfl
+                | some pt => obtain ⟨p, t⟩ := pt; simp at hthrow
+            · simp only [hb, if_false] at hthrow ⊢
+              cases hp : allocTable w.heap vd.fixedLoc vd.alloc vs.cap with
+              | mk h1 r =>
+                rw [hp] at hthrow
+                cases r with
+                | none => exact h.of_vecs rfl
+                | some t => simp at hthrow
+  | swap a b =>
+    simp only [WOp.apply, World.swap] at hthrow
+    split at hthrow
+    · simp at hthrow
+    · split at hthrow
+      · simp at hthrow
+      · rw [hprev] at hthrow; exact absurd hthrow (by simp)
+  | destroy k =>
+    simp only [WOp.apply, World.destroy] at hthrow
+    split at hthrow
+    · rw [hprev] at hthrow; exact absurd hthrow (by simp)
+    · simp at hthrow
+
+/-- the abstract map after a history in which allocations may fail at any point -/
+def arunF (ps : List Param) : World → (Nat → Option AVec) → List WOp → (Nat → Option AVec)
+  | _, A, [] => A
+  | w, A, op :: ops =>
+    arunF ps ({ (op.apply ps w) with threw := false }) (if (op.apply ps w).threw then op.aspecFail A else op.aspec w A) ops
+
+/-- the world after a history; the caller catches `bad_alloc` and goes on (the flag is reset before the next operation) -/
+def wrunF (ps : List Param) : World → List WOp → World
+  | w, [] => w
+  | w, op :: ops => wrunF ps ({ (op.apply ps w) with threw := false }) ops
+
+def WValidF (ps : List Param) : World → (Nat → Option AVec) → List WOp → Prop
+  | _, _, [] => True
+  | w, A, op :: ops => op.Pre ps w A ∧
+      WValidF ps ({ (op.apply ps w) with threw := false }) (if (op.apply ps w).threw then op.aspecFail A else op.aspec w A) ops
+
+/-- **every history, allocation failures included**: whichever allocations throw `bad_alloc`, and however the caller goes
+    on afterwards, every vector keeps representing the plain sequence of the abstract map, in which a failed operation
+    has changed nothing (a failed copy assignment has emptied its target) -/
+theorem history_refines_with_failures (ps : List Param) (hl : ListOK ps) (ops : List WOp) :
+    ∀ (w : World) (A : Nat → Option AVec), w.threw = false → WInv ps w A → WValidF ps w A ops →
+      WInv ps (wrunF ps w ops) (arunF ps w A ops) := by
+  induction ops with
+  | nil => intro w A _ h _; exact h
+  | cons op ops ih =>
+    intro w A h0 h hv
+    simp only [wrunF, arunF]
+    apply ih _ _ rfl _ hv.2
+    cases ht : (op.apply ps w).threw with
+    | false => exact (step_refines ps hl w A h op hv.1 ht).of_vecs rfl
+    | true => exact (step_refines_fail ps hl w A h op hv.1 h0 ht).of_vecs rfl
 
 end Cntgs
